@@ -642,8 +642,29 @@ def _r8(ctx):
     b = brs[0]
     parts = {U(v) for v in b.test.values} if isinstance(b.test, ast.BoolOp) and isinstance(b.test.op, ast.And) else set()
     eq = {"%s[1:] == %s[:-1]" % (ops, ops), "%s[:-1] == %s[1:]" % (ops, ops)}
-    ctx.check(len(parts) == 2 and any("breaks_dependency_on_equal_operands" in p for p in parts) and bool(parts & eq), "R8",
-              "guard = DB flag and all operands equal", f.where(b), "zero-idiom guard is %s" % U(b.test), f.qname, "zero idiom guard")
+    good = len(parts) == 2 and any("breaks_dependency_on_equal_operands" in p for p in parts) and bool(parts & eq)
+    recognised = True
+    why = "zero-idiom guard is %s" % U(b.test)
+    if not good:
+        # which operands does the guard compare? all-equal over a role-filtered part of the operands with nothing said about
+        # the rest is the recognised defect (an output in another register keeps the input alive); a guard that talks about
+        # several parts of the operand list is not understood
+        sub = C.flow_of(f).subst(b.test)
+        conj = list(sub.values) if isinstance(sub, ast.BoolOp) and isinstance(sub.op, ast.And) else [sub]
+        rest = [c for c in conj if "breaks_dependency_on_equal_operands" not in U(c)]
+        flat = []
+        for c in rest:
+            flat.extend(c.values if isinstance(c, ast.BoolOp) and isinstance(c.op, ast.And) else [c])
+        m = [pm.match("M_x[1:] == M_x[:-1]", c) or pm.match("M_x[:-1] == M_x[1:]", c) for c in flat]
+        if len(flat) == 1 and m[0] is not None and U(m[0]["M_x"]) == ops:
+            good = len(rest) == 1 and len(conj) == 2
+        elif len(flat) == 1 and m[0] is not None and isinstance(m[0]["M_x"], (ast.ListComp, ast.GeneratorExp)) \
+                and m[0]["M_x"].generators[0].ifs and ops in U(m[0]["M_x"].generators[0].iter):
+            why = "the zero-idiom guard compares only a filtered part of the operands (`%s`): operands outside it may name other " \
+                  "registers, whose values the instruction then does not kill" % U(m[0]["M_x"])[:120]
+        elif any(ops in {x.id for x in ast.walk(c) if isinstance(x, ast.Name)} for c in flat):
+            recognised = False
+    ctx.judge(good, recognised, "R8", "guard = DB flag and all operands equal", f.where(b), why, f.qname, "zero idiom guard")
     body = [U(s) for s in b.body]
     ctx.check(any(s == "op_dict['destination'] += %s" % ops for s in body) and isinstance(b.body[-1], ast.Return), "R8",
               "all operands become destinations and nothing else is assigned", f.where(b),
